@@ -147,8 +147,11 @@ class Runner:
                                  'args': [repr(a) for a in args],
                                  'observed': got, 'reference': str(want)},
                      kf=(quirk[0] if quirk and got[0] == 'value' and
-                         got[1][0] == 'num' and
-                         abs(got[1][1] - quirk[1]) <= 1e-12 else None),
+                         got[1][0] == 'num' and any(
+                             abs(got[1][1] - qv) <= 1e-12
+                             for qv in (quirk[1] if isinstance(
+                                 quirk[1], list) else [quirk[1]]))
+                         else None),
                      monitor='calendar-reference',
                      group=f'{fname}:{nt[1:] if nt else ""}:{got[0]}:'
                            f'{got[1][0] if got[0] == "value" else got[1][:12]}')
@@ -364,9 +367,14 @@ def run(ctx):
                    for d in (lo, hi)):
                 def q(d):
                     return 30 if (d.month == 2 and d.day == 28) else d.day
-                qd = (hi.year - lo.year) * 360 + (hi.month - lo.month) * 30 \
-                    + (q(hi) - q(lo))
-                quirk = ('KF-C18-06', qd / 360)
+                base360 = (hi.year - lo.year) * 360 + \
+                    (hi.month - lo.month) * 30
+                # the adjustment may hit the start, the end (not when it is
+                # the maturity date) or both
+                quirk = ('KF-C18-06', [
+                    (base360 + q(hi) - q(lo)) / 360,
+                    (base360 + hi.day - q(lo)) / 360,
+                    (base360 + q(hi) - lo.day) / 360])
             for basis in (0, 4):
                 R.check('YEARFRAC', (a, b, basis), d360 / 360, 'pair_calls',
                         ('YEARFRAC', basis, a <= b), tol=1e-12, quirk=quirk)
